@@ -871,6 +871,13 @@ impl LdapConnAsync {
                 break;
             }
         }
+        if let LoopMode::SingleOp = mode {
+            if !self.resultmap.is_empty() {
+                // the connection ended, or the loop was left, with the operation unanswered:
+                // dropping the connection fails the waiting caller instead of leaving it hanging
+                return Err(LdapError::EndOfStream);
+            }
+        }
         Ok(self)
     }
 }
